@@ -643,6 +643,25 @@ func (g *fgen) retStmt() *Stmt {
 	if g.named != nil {
 		return &Stmt{K: "retnamed", Xs: g.named}
 	}
+	// return f(..): a helper with exactly these results delivers all of them
+	if len(g.results) >= 2 && g.pct(30) {
+		for _, f := range g.funcs {
+			if len(f.Results) != len(g.results) {
+				continue
+			}
+			same := true
+			for i := range f.Results {
+				if !tyEqGo(f.Results[i], g.results[i]) {
+					same = false
+				}
+			}
+			if same {
+				if call := g.callOf(f, 2); call != nil {
+					return &Stmt{K: "ret", Es: []*Expr{call}}
+				}
+			}
+		}
+	}
 	s := &Stmt{K: "ret"}
 	for _, rt := range g.results {
 		if !rt.IsScalar() {
@@ -1263,6 +1282,11 @@ func genFragProgram(r *hxlib.Rng) *Program {
 	var results []*Ty
 	for i := 0; i < nres; i++ {
 		results = append(results, anyTy(true))
+	}
+	if len(helpers) > 0 && g.pct(25) {
+		if h := helpers[g.r.Intn(len(helpers))]; len(h.Results) >= 2 {
+			results = h.Results // `return f(..)` becomes possible
+		}
 	}
 	// helpers no other helper calls: main calls them first
 	called := map[*Func]bool{}
